@@ -457,7 +457,32 @@ func (m *Model) findLeave(r *Run) {
 		r.Undecide("anchors", "models.Session.RemoveParticipant not found")
 		return
 	}
-	for _, fn := range m.P.All {
+	m.Leave = m.P.leaveFuncs()
+	_ = rm
+}
+
+// leaveFuncs: the function(s) of RealtimeHandler that take the connection's participant out of its
+// session (they call Session.RemoveParticipant, directly or in a piece split off with a single call
+// site). The leave function is an operation with rules of its own (E1, E2, its E8 rows); like the listed
+// API it is never looked into from its callers, whatever its size.
+func (p *Program) leaveFuncs() []*Func {
+	if p.leaveMemo != nil {
+		return *p.leaveMemo
+	}
+	var out []*Func
+	p.leaveMemo = &out
+	rm := p.LookupFunc(pkgModels, "Session", "RemoveParticipant")
+	rtn := p.LookupType(pkgWS, "RealtimeHandler")
+	if rm == nil || rtn == nil {
+		return out
+	}
+	realtime, _ := rtn.Type().(*types.Named)
+	m := struct {
+		P        *Program
+		Realtime *types.Named
+		Leave    []*Func
+	}{p, realtime, nil}
+	for _, fn := range p.All {
 		if fn.Recv == nil {
 			continue
 		}
@@ -474,7 +499,7 @@ func (m *Model) findLeave(r *Run) {
 		if found {
 			// the removal may sit in a piece split off the leave function: a helper with exactly one
 			// call site is part of its caller
-			for hop := 0; hop < 3 && fn.Obj != nil && m.P.isGlue(fn.Obj); hop++ {
+			for hop := 0; hop < 3 && fn.Obj != nil && m.P.isGlueRaw(fn.Obj); hop++ {
 				var caller *Func
 				n := 0
 				for _, g := range m.P.All {
@@ -503,6 +528,8 @@ func (m *Model) findLeave(r *Run) {
 			}
 		}
 	}
+	out = m.Leave
+	return out
 }
 
 func (m *Model) buildHandlers(r *Run) {
